@@ -147,8 +147,17 @@ impl<'a, P: ?Sized + PathImpl> PathMutImpl<'a, P> {
 				i -= 1
 			}
 
-			replace(self.buffer, i..self.end, &[]);
-			self.end = i;
+			if i == start && self.buffer[i] == b'/' {
+				// The remaining path is a lone empty segment (`//foo` case).
+				// Removing `/foo` literally would drop the empty segment,
+				// instead we protect it with a `.` segment: `/./`.
+				replace(self.buffer, i..self.end, b"./");
+				self.end = i + 2;
+			} else {
+				replace(self.buffer, i..self.end, &[]);
+				self.end = i;
+			}
+
 			true
 		} else {
 			false
